@@ -416,3 +416,30 @@ Qed.
 Lemma w_fk_result :
   map pf_symbol (fill_const_name w_tab_full_text [mkPfk (B "0") [B "a"] (B "p") [B "id"]]) = [B "fk1"].
 Proof. vm_compute. reflexivity. Qed.
+
+(** ** further kernel-evaluated witnesses of known findings (hand-written statements SQLite accepts) *)
+Lemma w_more :
+  (* C03-bare-ident-check *)
+  fill_checks (B "CREATE TABLE health_check (id int)") = [(None, B "(id int)")] /\
+  (* C03-sql-comment *)
+  fill_checks (B "CREATE TABLE t (a int, /* CHECK (a > 1) */ b int)") = [(None, B "(a > 1)")] /\
+  (* C03-type-with-comma *)
+  set_gen_expr (B "b") (B "CREATE TABLE t (a int, b numeric(10,2) AS (a * 2) STORED)") = GenNotFound /\
+  (* C03-nonword-name *)
+  autoinc (B "CREATE TABLE t (""my col"" INTEGER PRIMARY KEY AUTOINCREMENT, b int)") [B "my col"; B "b"] [B "my col"] = AutoNone /\
+  (* C03-comma-before-inline-fk *)
+  map pf_symbol (fill_const_name (B "CREATE TABLE t (cx int CHECK (cx IN (1, 2, 3)) CONSTRAINT fk_a REFERENCES y (c))")
+                   [mkPfk (B "0") [B "cx"] (B "y") [B "c"]]) = [B "0"] /\
+  (* ... while without the comma the name is recovered *)
+  map pf_symbol (fill_const_name (B "CREATE TABLE t (cx int CHECK (cx > 0) CONSTRAINT fk_a REFERENCES y (c))")
+                   [mkPfk (B "0") [B "cx"] (B "y") [B "c"]]) = [B "fk_a"] /\
+  (* C03-bracket-ident, foreign-key and check names *)
+  fill_checks (B "CREATE TABLE [t] ([a] int, CONSTRAINT [ck] CHECK (a > 0))") = [(None, B "(a > 0)")].
+Proof. vm_compute. repeat split; reflexivity. Qed.
+
+(** C03-default-blob-literal on the printer: a blob column DEFAULT x'00ff' is printed as a quoted string *)
+Lemma w_blob_default :
+  print_table (PlanModel.mkX (Schema.mkTable (B "t") false false
+                 [Schema.mkColumn (B "b") 5 (B "blob") true (Some (Schema.DLit (B "x'00ff'"))) None None] None [] [] []) [])
+  = Some (B "CREATE TABLE `t` (`b` blob NULL DEFAULT 'x''00ff''')").
+Proof. vm_compute. reflexivity. Qed.
